@@ -6,7 +6,12 @@ is driven through its own compiled driver on the original AND on permuted inputs
 the implementation (so the model the corollary is about is checked against the code on exactly the
 kind of input the corollary speaks of).  Oracle: the property itself on the implementation —
 canonicalised (sorted) outputs of every listed operation on a sequence and on permutations of every
-repeated field."""
+repeated field (always including the REVERSED storage order, which flips every pair).  The generator stays inside the
+quantifier (checked exactly by `in_quantifier`) and aims at what makes "the first stored one" visible: near-equal
+tempo values, times a few ulps apart, programs / is_drum that disagree inside an instrument, range ends.  Operation
+parameters come from a recorded `param_seed` (exact replays).  `corpus/C12/*.json`: {'sequence': wire, optional
+'permuted', 'operation', 'param_seeds'} - run under all permutations of every field with <= 4 elements.  `history:*`
+streams guard what the comparison relies on (argument unchanged by every call, same result on a second call)."""
 import io
 import itertools
 
